@@ -61,7 +61,7 @@ def required(tier):
     cells += ["normalized:True", "normalized:False", "cplx_input:True", "cplx_input:False", "shape:wide", "shape:tall"]
     cells += ["stacked_layout+missing_samples", "op:transform_X_only", "op:transform_Y_only"]
     cells += ["history:after_accessor_history", "history:model_under_rotator", "cplx_nonexact:ComplexEOF", "cplx_nonexact:ComplexEOFRotator", "cplx_nonexact_backend:svds"]
-    return {"mon": ["value_comparisons"], "cover": cells}
+    return {"mon": ["value_comparisons", "rotator_refits_compared"], "cover": cells}
 
 
 def cases(tier, seed):
@@ -282,6 +282,40 @@ def run_case(case, obs):
                 obs, "transform", t_, sdims, keys, w, valid, wm, tol, {}, "transform_ne_scores", "sample_labels",
                 ctx=dict(ctx, call=label, field=i, container=case["fields"][i]["kind"]), vtags=dict(cc.field_tags(case, i), call="transform", history=label, container=case["fields"][i]["kind"]), classify=True,
             )
+    # (c) a rotator object is re-used: after it has projected data for the first model it is fitted on a SECOND
+    # model (same class and parameters, other data of the same structure); transform of that model's training
+    # data must again reproduce the rotator's scores (nothing derived from the first fit may survive)
+    if getattr(fitted, "base", None) is not None and case["dseed"] % 2 == 0 and case["nan"] == "none":
+        kwm, _ = cc.model_kwargs(case)
+        other = [zoo.perturbed(f_) for f_ in tr["fields"]]
+        ctx = {"normalized": False, "history": "rotator_refitted_on_other_model"}
+        htags = dict(etags, history="rotator_refitted_on_other_model")
+        try:
+            with warnings.catch_warnings():
+                warnings.simplefilter("ignore")
+                base2 = zoo.fit(case["base"], other, tr["dim"], kwm)
+                fitted.model.fit(base2.model)
+            refit_ok = True
+        except RuntimeError as e:
+            refit_ok = False
+            if "did not converge" not in str(e):
+                raise
+            obs.count("refused_rotation_not_converged")
+        if refit_ok:
+            S = cc.guarded(obs, "scores", lambda: fitted.scores(normalized=False), tags=dict(htags, op="scores"), ctx=ctx)
+            T = cc.guarded(obs, "transform", lambda: fitted.transform(*other, normalized=False), tags=htags, ctx=ctx)
+            if S is not None and T is not None and len(S) == nfld and len(T) == nfld:
+                obs.cell("history:rotator_refitted_on_other_model")
+                obs.count("rotator_refits_compared")
+                for i, (s_, t_) in enumerate(zip(S, T)):
+                    w, wm = cc.lay_on_rows(obs, "scores", s_, sdims, keys, valid, {}, ctx=dict(ctx, field=i))
+                    if w is None:
+                        continue
+                    cc.compare(
+                        obs, "transform", t_, sdims, keys, w, valid, wm, tol, {}, "transform_ne_scores", "sample_labels",
+                        ctx=dict(ctx, call="rotator_refit", field=i, container=case["fields"][i]["kind"]),
+                        vtags=dict(cc.field_tags(case, i), call="transform", history="rotator_refitted_on_other_model", container=case["fields"][i]["kind"]), classify=True,
+                    )
     if compared:
         obs.cell(f"compared:{case['cell']}")
     obs.note("compared", compared)
